@@ -21,7 +21,7 @@ Extraction "model.ml"
   split_version semver_parse dpkg_cmp rpm_cmp check_split check_order_dpkg check_order_rpm
   cli_plan check_cli check_filename expected_filename model_filename
   strict_accepts schema_validates is_unknown_key doc_keys_unique config_ty schema_emitted
-  config_get merge vget check_C13 value_eqb
+  config_get merge vget check_C13 value_eqb spec_get
   check_write check_ref check_invalid check_cli_run deb_dest_writes ref_used must_reject do_package
   check_build check_stamp check_C10 deb_sig_member apk_sig_member
   model_private get_aliases model_run all_ops solo_private t_init script_of run_sched
